@@ -395,7 +395,10 @@ def _step(s: Store, op: dict, exc_log: list):
             return "ok"
         if name == "item":
             h = s.get(op["h"])
-            b, v = h[op["i"]]
+            i = op["i"]
+            if op.get("ik"):          # the integer index as a numpy integer scalar of that type
+                i = np.dtype(op["ik"]).type(i)
+            b, v = h[i]
             return {"bin": [rs(b[0]), rs(b[1])], "value": rs(v)}
         if name == "set_dtype":
             h = s.get(op["h"])
